@@ -1,7 +1,7 @@
 (* C13 - the error bound of PowApprox on its whole exponent range [0, 1) (series + the exponent-1/2 shortcut), and its lift
    to Pow (osmomath/math.go) for bases 1/2 <= base < 2.  Reals axioms only. *)
 From Coq Require Import ZArith Reals Lra Lia Bool.
-From Osmo Require Import Base.DecModel C13.Common C13.Pow C13.RoundProofs C13.PowProofs C13.PowBound C13.PowSqrt Gen.C13_consts.
+From Osmo Require Import Base.DecModel C13.Common C13.Pow C13.RoundProofs C13.PowProofs C13.PowBound C13.PowSqrt C13.PowInt Gen.C13_consts.
 Open Scope R_scope.
 
 (* PowApprox(base, exp, precision) for 1/2 <= base < 2, 0 <= exp < 1, 0 <= precision <= 1: a returned value is within
@@ -92,4 +92,80 @@ Proof.
   assert (0 < pow_err) by (rewrite pow_err_val; assert (0 < 1 / 10 ^ 8) by (apply Rdiv_lt_0_compat; [lra|apply pow_lt; lra]);
                            assert (0 < 1 / 10 ^ 12) by (apply Rdiv_lt_0_compat; [lra|apply pow_lt; lra]); lra).
   nra.
+Qed.
+
+(* ---------- any exponent with an integer part up to 2^28 ---------- *)
+Lemma Rpower_frac_le : forall b f, 0 < b -> 0 <= f <= 1 -> 0 < Rpower b f <= Rmax 1 b.
+Proof.
+  intros b f Hb Hf. split; [apply exp_pos|]. unfold Rpower.
+  assert (Hmono : forall x y, x <= y -> exp x <= exp y).
+  { intros x y [H| ->]; [left; apply exp_increasing; assumption|right; reflexivity]. }
+  destruct (Rle_dec 1 b) as [H1|H1].
+  - eapply Rle_trans; [|apply Rmax_r]. rewrite <- (exp_ln b) at 2 by assumption. apply Hmono.
+    assert (0 <= ln b) by (rewrite <- ln_1; destruct H1 as [H1| <-]; [left; apply ln_increasing; lra|right; reflexivity]). nra.
+  - eapply Rle_trans; [|apply Rmax_l]. rewrite <- exp_0. apply Hmono.
+    assert (ln b < 0) by (rewrite <- ln_1; apply ln_increasing; lra). nra.
+Qed.
+
+Lemma pow_err_range : 0 < pow_err <= 1 / 2.
+Proof.
+  rewrite pow_err_val. assert (0 < 1 / 10 ^ 8) by (apply Rdiv_lt_0_compat; [lra|apply pow_lt; lra]).
+  assert (0 < 1 / 10 ^ 12) by (apply Rdiv_lt_0_compat; [lra|apply pow_lt; lra]). lra.
+Qed.
+
+(* Pow(base, exp) for 1/2 <= base < 2 and 0 <= exp with integer part n <= 2^28:
+   |Pow - base^exp| <= max(1, base)^n * (1e-8 + 1e-12 + 5 n ulp) + 1/2 ulp *)
+Theorem pow_bound_full : forall base exp r,
+  (P18 <= 2 * base)%Z -> (base < 2 * P18)%Z -> (0 <= exp)%Z -> (Z.quot exp P18 <= n_max)%Z -> pow base exp = Ok r ->
+  let n := Z.to_nat (Z.quot exp P18) in
+  Rabs (dR r - Rpower (dR base) (dR exp)) <= Rmax 1 (dR base) ^ n * (pow_err + 5 * INR n * u18) + u18 / 2.
+Proof.
+  intros base exp r Hb1 Hb2 He Hq H n. assert (HP : (0 < P18)%Z) by (vm_compute; reflexivity).
+  destruct (pow_bound_product base exp r Hb1 Hb2 He H) as (ip & Hip & HB).
+  set (q := Z.quot exp P18) in *. set (f := Z.rem exp P18) in *.
+  assert (Hq0 : (0 <= q)%Z) by (apply Z.quot_pos; lia).
+  assert (Hf : (0 <= f < P18)%Z) by (apply Z.rem_bound_pos; lia).
+  assert (Eexp : exp = (q * P18 + f)%Z) by (unfold q, f; pose proof (Z.quot_rem' exp P18); lia).
+  pose proof u18_pos as Hu. pose proof pow_err_range as Herr.
+  assert (Hbpos : 0 < dR base) by (rewrite dR_eq; apply Rmult_lt_0_compat; [apply IZR_lt; lia|assumption]).
+  assert (Hb2' : dR base < 2).
+  { replace 2 with (dR (2 * P18)) by (rewrite dR_mul_P18; reflexivity). apply dR_lt. assumption. }
+  set (b := dR base) in *. set (M := Rmax 1 b).
+  assert (HM : 1 <= M <= 2) by (split; [apply Rmax_l|apply Rmax_lub; lra]).
+  assert (Hfr : 0 <= dR f <= 1).
+  { split; [apply dR_nonneg; lia|]. rewrite <- dR_P18. apply dR_le. lia. }
+  pose proof (Rpower_frac_le b (dR f) Hbpos Hfr) as HPf. fold M in HPf.
+  set (Pf := Rpower b (dR f)) in *.
+  assert (EP : Rpower b (dR exp) = b ^ n * Pf).
+  { rewrite Eexp, dR_add, dR_mul_P18, Rpower_plus. f_equal.
+    rewrite <- Rpower_pow by assumption. f_equal. unfold n. rewrite INR_IZR_INZ, Z2Nat.id by assumption. reflexivity. }
+  rewrite EP.
+  assert (HMn : 1 <= M ^ n) by (apply pow_R1_Rle; lra).
+  assert (HnR : 0 <= INR n) by apply pos_INR.
+  assert (Hipb : Rabs (dR ip - b ^ n) <= 2 * INR n * M ^ n * u18).
+  { destruct (Z.eq_dec q 0) as [E0|E0].
+    - rewrite E0 in Hip. rewrite dc_power_0 in Hip. inversion Hip; subst ip. unfold n. rewrite E0. simpl Z.to_nat.
+      rewrite dR_P18, pow_O. replace (1 - 1) with 0 by ring. rewrite Rabs_R0. simpl INR. lra.
+    - pose proof (dc_power_bound base ltac:(lia) q ltac:(lia) ip Hip) as HBp. fold b in HBp. fold M in HBp. fold n in HBp.
+      replace (IZR q) with (INR n) in HBp by (unfold n; rewrite INR_IZR_INZ, Z2Nat.id by assumption; reflexivity).
+      exact HBp. }
+  assert (Hbn : 0 <= b ^ n <= M ^ n).
+  { split; [left; apply pow_lt; assumption|]. apply pow_incr. split; [lra|apply Rmax_r]. }
+  assert (Hipabs : Rabs (dR ip) <= M ^ n * (1 + 2 * INR n * u18)).
+  { replace (dR ip) with (b ^ n + (dR ip - b ^ n)) by ring. eapply Rle_trans; [apply Rabs_triang|].
+    rewrite (Rabs_pos_eq (b ^ n)) by lra. nra. }
+  replace (dR r - b ^ n * Pf) with ((dR r - dR ip * Pf) + (dR ip - b ^ n) * Pf) by ring.
+  eapply Rle_trans; [apply Rabs_triang|]. rewrite (Rabs_mult (dR ip - b ^ n)), (Rabs_pos_eq Pf) by lra.
+  pose proof (Rabs_pos (dR ip - b ^ n)) as Hd0. pose proof (Rabs_pos (dR ip)) as Hi0.
+  assert (T1 : Rabs (dR ip) * pow_err <= M ^ n * (1 + 2 * INR n * u18) * pow_err) by (apply Rmult_le_compat_r; lra).
+  assert (T2 : Rabs (dR ip - b ^ n) * Pf <= 2 * INR n * M ^ n * u18 * 2).
+  { apply Rmult_le_compat; try lra. }
+  assert (T3 : 2 * INR n * u18 * pow_err <= INR n * u18).
+  { assert (0 <= INR n * u18) by (apply Rmult_le_pos; lra). nra. }
+  assert (T4 : M ^ n * (1 + 2 * INR n * u18) * pow_err + 2 * INR n * M ^ n * u18 * 2
+               <= M ^ n * (pow_err + 5 * INR n * u18)).
+  { replace (M ^ n * (1 + 2 * INR n * u18) * pow_err + 2 * INR n * M ^ n * u18 * 2)
+      with (M ^ n * (pow_err + 2 * INR n * u18 * pow_err + 4 * INR n * u18)) by ring.
+    apply Rmult_le_compat_l; lra. }
+  lra.
 Qed.
